@@ -19,6 +19,7 @@ import (
 	"context"
 	"fmt"
 	"go/types"
+	"math/big"
 	"os"
 	"path/filepath"
 	"regexp"
@@ -113,15 +114,18 @@ func (b *cexBuilder) goValue(term string, t types.Type, depth int) string {
 		if !ok {
 			return "time.Time{}"
 		}
-		n, ok := parseIntVal(v)
-		if !ok || n < 0 || n > 1<<62 {
+		// the model's instants are nanoseconds since the zero Time (year 1): seconds are shifted to the Unix epoch
+		bn, ok := new(big.Int).SetString(strings.TrimSpace(v), 10)
+		if !ok || bn.Sign() < 0 || bn.BitLen() > 68 {
 			return b.fail("time value %s out of range", v)
 		}
 		b.imports["time"] = "time"
-		if n == 0 {
+		if bn.Sign() == 0 {
 			return "time.Time{}"
 		}
-		return fmt.Sprintf("time.Time{}.Add(time.Duration(%d))", n)
+		sec, nsec := new(big.Int).DivMod(bn, big.NewInt(1000000000), new(big.Int))
+		sec.Sub(sec, big.NewInt(62135596800))
+		return fmt.Sprintf("time.Unix(%s, %s).UTC()", sec.String(), nsec.String())
 	}
 	if isKeyUsage(t) {
 		v, ok := b.val(term)
@@ -953,7 +957,7 @@ func buildReplayTest(p *Prog, o *Obligation, smtDir string) (src, pkgDir, how, r
 			small = append(small, "(assert (<= "+t+" 3))")
 		}
 		if b.timeTerms[t] {
-			small = append(small, "(assert (and (>= "+t+" 0) (<= "+t+" 1000000000000000000)))")
+			small = append(small, "(assert (and (>= "+t+" 0) (<= "+t+" 100000000000000000000)))")
 		}
 		if strings.HasPrefix(t, "(strlen ") {
 			small = append(small, "(assert (<= "+t+" 40))")
@@ -964,6 +968,20 @@ func buildReplayTest(p *Prog, o *Obligation, smtDir string) (src, pkgDir, how, r
 				alts = append(alts, Eq(t, strconv.Itoa(tg)))
 			}
 			small = append(small, "(assert "+Or(alts...)+")")
+		}
+	}
+	if o.Decls.Has("f:pure.time.Now") || o.Decls.Has("c:pure.time.Now") {
+		// the replay runs now: the model's clock is the real one
+		now := new(big.Int).Add(big.NewInt(time.Now().Unix()), big.NewInt(62135596800))
+		now.Mul(now, big.NewInt(1000000000))
+		nowT := "pure.time.Now"
+		if o.Decls.Has("f:pure.time.Now") && !strings.Contains(strings.Join(o.Decls.order, "\n"), "(declare-fun pure.time.Now () ") {
+			nowT = ""
+		}
+		if nowT != "" {
+			lo := new(big.Int).Sub(now, big.NewInt(60000000000))
+			hi := new(big.Int).Add(now, big.NewInt(600000000000))
+			small = append(small, fmt.Sprintf("(assert (and (>= %s %s) (<= %s %s)))", nowT, lo, nowT, hi))
 		}
 	}
 	vals, how := o.modelValues(smtDir, terms, small)
